@@ -171,10 +171,32 @@ def wild_in(pat, s):
     return False
 
 
+JAVA_CRASH_ASIS = r'(java\.lang.*)\n(.*)'
+JAVA_CRASH_FRAMED = r'(java\.lang.*)\n([ \t]+at .*)'
+
+
+def java_crash_variant():
+    """which of the two javac crash patterns the tree under check implements (read from the
+    LIVE class, as Model/Diag.javaCrashVariant reads it from the regenerated string); an unknown
+    pattern is treated like the repaired one (the *_expected obligation fails for it)"""
+    pat = classes()["java"].CRASH_REGEX.pattern
+    return "asis" if pat == JAVA_CRASH_ASIS else "framed"
+
+
+def frame_line(l):
+    """`[ \\t]+at ` at the start of the line (own implementation, no `re`)"""
+    i = 0
+    while i < len(l) and l[i] in " \t":
+        i += 1
+    return i > 0 and l[i:i + 3] == "at "
+
+
 def line_crash(c, l):
-    """the line alone would make the analysis call the output a crash"""
+    """the per-line clause of Spec/Diag.lineCrash: for the as-is javac pattern and the other
+    compilers the line contains the crash marker; for the repaired javac pattern the line is a
+    stack frame line (a line containing java.lang is harmless unless a frame line follows)"""
     if c == "java":
-        return "java.lang" in l
+        return "java.lang" in l if java_crash_variant() == "asis" else frame_line(l)
     if c == "kotlin":
         return "org.jetbrains." in l
     if c == "groovy":
@@ -275,7 +297,8 @@ MSGS = {
     "java": ["incompatible types: String cannot be converted to Integer", "cannot find symbol", "';' expected",
              "method m in class Main cannot be applied to given types;", "incompatible types: inference variable T has incompatible bounds",
              "unreported exception Exception; must be caught or declared to be thrown",
-             "incompatible types: bad return type in lambda expression", "reference to g is ambiguous"],
+             "incompatible types: bad return type in lambda expression", "reference to g is ambiguous",
+             "incompatible types: java.lang.Object cannot be converted to T", "java.lang.Comparable<T> is abstract; cannot be instantiated"],
     "kotlin": ["type mismatch: inferred type is String but Int was expected", "unresolved reference: foo",
                "none of the following functions can be called with the arguments supplied: ",
                "type argument is not within its bounds: should be subtype of 'Number'",
@@ -289,7 +312,7 @@ DETAILS = {
     "java": ["    Integer x = \"s\";", "                ^", "  symbol:   variable foo", "  location: class Main",
              "  where T is a type-variable:", "    T extends Object declared in method <T>id(T)", "    lower bounds: String,Object",
              "  required: T,T", "  found:    int,String", "  reason: inference variable T has incompatible bounds",
-             "    String q = java_lang;", "  both method g2(String,Object) in Main and method g2(Object,String) in Main match"],
+             "    String q = java_lang;", "    String q = java.lang;", "    T extends java.lang.Object declared in class Main", "  both method g2(String,Object) in Main and method g2(Object,String) in Main match"],
     "kotlin": ["    val x: Int = \"s\"", "                 ^", "fun foo(x: Int): String defined in src.foo", "    return bar<String>(1)"],
     "groovy": [" @ line 3, column 9.", "           int x = 'a'", "           ^", "   Main.foo(1)", " @ line 12, column 1."],
     "scala": ["3 |  val x: Int = \"a\"", "  |               ^^^", "  |               Found:    (\"a\" : String)", "  |               Required: Int",
@@ -651,6 +674,12 @@ def corpus_cases():
         (J, "java.lang.AssertionError", [], None),
         (J, "x java.lang\n", [], None),
         (J, "java.lang.AssertionError: x\n\tat com.sun.tools.javac.Main\n", [], {"crash": True, "failed": []}),
+        (J, "Caused by: java.lang.NullPointerException\n    at com.sun.tools.javac.comp.Attr.visitApply(Attr.java:2)\n", [], {"crash": True, "failed": []}),
+        (J, P + "foo/Main.java:3: error: incompatible types: java.lang.Object cannot be converted to T\n    at = o;\n    ^\n1 error\n", [], None),   # identifier `at` (not a word of the tool)
+        (J, "java.lang.Error\nat x\n", [], None),
+        (J, "java.lang.Error\n\n\tat x\n", [], None),
+        (J, "java.lang.Error\n \t at x\n", [], None),
+        (J, "java.lang.Error\n\tat", [], None),
         (J, "Main.java:3:error: x\nMain.java:3: error:x\nMain.java:: error: x\nMain.java:3 : error: x\n", [], None),
         (J, "Main.java:٣: error: x\nMain.java:1２:  error:   y\n", [], None),
         (J, "xMain.java:1: error: a.java:2: error: b\n", [], None),
@@ -726,7 +755,14 @@ FRAG_COMMON = ["\n", "\n", "\n\n", "\n\n\n", " ", "  ", ":", ": ", "error", "err
 FRAG = {
     "java": ["Main.java", ".java", "java", "xjava", "Main.java:", ".java:3:", "3: error: ", "java.lang", "java.lang.AssertionError", "java_lang",
              "javaxlang", "java.lan", "\tat com.sun.tools.javac", "Note: ", "1 error\n", "Main.jav", "Main.javaa", "a/Main.java:1: error: m\n",
-             "java.lang.", "lang", "Main.java:3: warning: w\n"],
+             "java.lang.", "lang", "Main.java:3: warning: w\n",
+             # crash-shaped pieces (javac reports of internal errors: exception line, then `\tat <frame>` lines)
+             "\tat ", " at ", "    at ", "\t at ", " \tat ", "at ", "\nat ", "\n\tat ", "\n at x", "\tat\n", "\tatx", " a t ", "\t", "\n\t",
+             "java.lang.AssertionError\n\tat jdk.compiler/com.sun.tools.javac.util.Assert.error(Assert.java:155)\n",
+             "java.lang.NullPointerException: Cannot invoke \"com.sun.tools.javac.code.Type.getTag()\" because \"t\" is null\n",
+             "java.lang.StackOverflowError\n", "Caused by: java.lang.IllegalStateException\n", "\t... 14 more\n",
+             "\tat jdk.compiler/com.sun.tools.javac.comp.Attr.visitApply(Attr.java:2000)\n",
+             "    String q = java.lang;\n", "    at = o;\n", "java.lang.Object cannot be converted to T\n"],
     "kotlin": ["program.kt", ".kt", "kt", "xkt", ".kt:", "program.kt:", "1:2: error: ", "org.jetbrains.", "org.jetbrains", "orgxjetbrains.",
                "org.jetbrainsx", "org.jetbrains.kotlin.X", "a/program.kt:1:2: error: m\n", "program.k", "jetbrains.", "org."],
     "groovy": ["Main.groovy", ".groovy", "groovy", ".groovy:", "xgroovy:", "Main.groovy:", " 3: ", "at org.codehaus.groovy", "at orgxcodehausxgroovy",
@@ -739,7 +775,18 @@ FRAG = {
 }
 TEMPLATES = {
     "java": ["a/Main.java:12: error: msg x\n", "/tmp/tmpab12_x9z/src/foo/Main.java:3:  error:  y\n  sym\n", "x java.lang.Error\n\tat q\n",
-             "Main.java:1: error: a\nB.java:2: error: b\n", "a_1/Main.java:7: error: \n", "/Main.java:1: error: p\n\nq.java:2: error: r\n\n"],
+             "Main.java:1: error: a\nB.java:2: error: b\n", "a_1/Main.java:7: error: \n", "/Main.java:1: error: p\n\nq.java:2: error: r\n\n",
+             # real shapes of javac internal-error reports (JDK bug database), and near misses of the frame line
+             "An exception has occurred in the compiler (17.0.9). Please file a bug against the Java compiler via the Java bug reporting page.\n"
+             "java.lang.AssertionError: Unexpected intersection type: java.lang.Object&I\n"
+             "\tat jdk.compiler/com.sun.tools.javac.util.Assert.error(Assert.java:162)\n"
+             "\tat jdk.compiler/com.sun.tools.javac.main.Main.main(Main.java:50)\n",
+             "\n\nThe system is out of resources.\nConsult the following stack trace for details.\njava.lang.StackOverflowError\n"
+             "\tat jdk.compiler/com.sun.tools.javac.code.Types$MapVisitor.visitClassType(Types.java:1)\n",
+             "java.lang.NullPointerException\n\tat com.sun.tools.javac.comp.Attr.visitApply(Attr.java:2)\nCaused by: java.lang.Error\n\t... 3 more\n",
+             "a/Main.java:3: error: incompatible types: java.lang.Object cannot be converted to T\n    at = o;\n    ^\n1 error\n",
+             "a/Main.java:3: error: incompatible types: Integer cannot be converted to String\n    String q = java.lang;\n                   ^\n1 error\n",
+             "java.lang.Error\n\nat x\n", "java.lang.Error\nat x\n", "java.lang.Error \tat x\n", "java.lang.Error\n\t at x\n", "java.lang.Error\n\tat\n"],
     "kotlin": ["a/program.kt:1:22: error: msg\n", "/tmp/tmpab12_x9z/src/foo/program.kt:3:4:  error:  y\n  src\n", "org.jetbrains.kotlin.E: x\n at y\n",
                "p.kt:1:2: error: a\nq.kt:3:4: error: b", "a_1/program.kt:7:1: error: \n"],
     "groovy": ["a/Main.groovy: 3: msg\n @ line 3\n\n1 error\n\n", "C:\\a\\Main.groovy: 1: x\n\n", "\tat org.codehaus.groovy.X(Y)\n", "java.lang.StackOverflowError\n",
@@ -1046,6 +1093,7 @@ class State:
     def __init__(self):
         self.diffs = []      # (stream, request, impl, model)
         self.gt_bad = []     # (stream, compiler, case for replay, impl, gt)
+        self.reported_sigs = []   # signatures of failing inputs already reported by a probe
 
 
 def run_cases(run, st, label, cases, count_nontrivial=True):
@@ -1292,6 +1340,14 @@ def probe_known(run, st, name, case):
             rec["note"] = ("the output contains no stack trace, only an ordinary diagnostic whose quoted source line contains "
                            "`java.lang` (identifiers java and lang are entries of src/resources/words); CRASH_REGEX fires on it")
             run.violation(rec, signature="java:crash-regex-on-quoted-java.lang")
+            st.reported_sigs.append("java:crash-regex-on-quoted-java.lang")
+
+
+# obligations of Props/C14.lean that stop checking when the tree implements the as-is javac crash
+# pattern, and the failing input (by signature) that explains them
+EXPLAINS = {
+    "java:crash-regex-on-quoted-java.lang": {"javaCrashPattern_expected", "javaCrashVariant_live"},
+}
 
 
 def broken_theorems(run):
@@ -1354,6 +1410,17 @@ def verdict(run, st, proofs_ok):
                       signature="%s:model-differs" % rq.get("compiler"), no_input=True)
         return
     if not proofs_ok:
+        # 2.4: the failing-input search has already found (and reported under its signature) the
+        # input that explains these obligations: the unrepaired javac crash pattern
+        explained = set()
+        for sig in list(run.known_hit) + [s_ for s_ in getattr(st, "reported_sigs", [])]:
+            explained |= EXPLAINS.get(sig, set())
+        left = [t for t in thms if t not in explained]
+        only_props = all("Heph.Props.C14" in str(b.get("obligation", "")) for b in run.broken)
+        if thms and not left and only_props:
+            run.log("broken obligations %s are explained by the reported failing input(s)" % ", ".join(thms))
+            run.cov["broken_obligations_explained_by"] = sorted(set(run.known_hit) | set(getattr(st, "reported_sigs", [])))
+            return
         run.violation({"kind": "broken-proof", "theorems": thms, "obligations": run.broken,
                        "note": "no input found on which the real code differs from the model or from the ground truth"},
                       signature="proof", no_input=True)
